@@ -554,7 +554,7 @@ impl Property for C10 {
     fn budget(&self, tier: Tier) -> (u32, usize) {
         match tier {
             Tier::Quick => (100_000, 8),
-            Tier::Thorough => (3_000_000, 16),
+            Tier::Thorough => (2_000_000, 16),
         }
     }
     fn run(&self, case: &CacheCase) -> Report {
